@@ -13,6 +13,7 @@ import (
 	"context"
 	"fmt"
 	"net/http"
+	"os"
 	"sort"
 	"sync"
 	"time"
@@ -90,6 +91,7 @@ type c16Env struct {
 	hosts []int // started hosts
 	seq   int
 	tag   string
+	ver   primitive.ProtocolVersion // of the probes (0: v4)
 }
 
 func newC16Env(tag string, started []int, topo []int, opt func(*proxy.Config)) *c16Env {
@@ -139,7 +141,11 @@ func (e *c16Env) routing(n int) []int {
 	for i := 0; i < n; i++ {
 		e.seq++
 		tok := fmt.Sprintf("%sq%d", e.tag, e.seq)
-		_ = e.cl.Send(primitive.ProtocolVersion4, int16(1+e.seq%100), &message.Query{Query: "SELECT v FROM ks.t WHERE k = 'tok:" + tok + "'", Options: &message.QueryOptions{}})
+		ver := e.ver
+		if ver == 0 {
+			ver = primitive.ProtocolVersion4
+		}
+		_ = e.cl.Send(ver, int16(1+e.seq%100), &message.Query{Query: "SELECT v FROM ks.t WHERE k = 'tok:" + tok + "'", Options: &message.QueryOptions{}})
 		f, _ := e.cl.Next(5 * time.Second)
 		if f == nil {
 			continue
@@ -354,6 +360,87 @@ func c16EventDriven(ctx *Ctx, variant int) {
 	}
 	ctx.Emit(hv.L(hv.I(1), intsV(initial), hv.L(steps...)), hv.L(outs...), fmt.Sprintf("tables:event-driven variant %d", variant))
 	ctx.Count("tables:event-driven")
+}
+
+// ---- (1c) a session that is being created while a host leaves; the host comes back later.  Every session keeps its
+// own table of pools, filled by a goroutine per host when the session is born and by add/remove events afterwards. ----
+func c16SessionBornDuringRemoval(ctx *Ctx) {
+	for round := 0; round < ctx.Scale(1, 6); round++ {
+		all := []int{1, 2, 3}
+		e := newC16Env(fmt.Sprintf("b%dr%d", ctx.Seed%1000, round), all, all, nil)
+		if !e.waitControl(5 * time.Second) {
+			ctx.Count("born-during-removal:no-control-connection")
+		}
+		// the leaver is neither the host the control connection is on nor the one it fails over to next (a host always
+		// lists itself)
+		c := e.controlHost()
+		if c == 0 {
+			c = 1
+		}
+		leaver := 6 - c - (c%3 + 1)
+		stay := []int{1, 2, 3}
+		stay = append(stay[:leaver-1], stay[leaver:]...)
+		// connections to the leaver take 700 ms to start up from now on: a session born now is still connecting its pool
+		// for that host when the removal is announced
+		e.be.SetSlowStartupHost(leaver, 700*time.Millisecond)
+		cl, err := px.Dial(e.env.Addr)
+		if err != nil {
+			panic(err)
+		}
+		if err := cl.Startup(primitive.ProtocolVersion3, ""); err != nil {
+			panic(err)
+		}
+		// the first request of a client with another protocol version creates a session
+		_ = cl.Send(primitive.ProtocolVersion3, 1, &message.Query{Query: "SELECT v FROM ks.t WHERE k = 'tok:" + e.tag + "first'", Options: &message.QueryOptions{}})
+		time.Sleep(120 * time.Millisecond)
+		t0 := time.Now()
+		e.be.SetTopology(stay...)
+		e.be.DropRegistered() // the control connection reconnects and merges the new table
+		e.waitControl(5 * time.Second)
+		if os.Getenv("VH_DEBUG") != "" {
+			fmt.Fprintf(os.Stderr, "DEBUG born: control back after %v\n", time.Since(t0))
+		}
+		if f, _ := cl.Next(5 * time.Second); f == nil {
+			ctx.Count("born-during-removal:first-request-unanswered")
+		}
+		if os.Getenv("VH_DEBUG") != "" {
+			fmt.Fprintf(os.Stderr, "DEBUG born: first reply after %v\n", time.Since(t0))
+		}
+		if e.controlHost() == leaver {
+			ctx.Count("born-during-removal:control-connection-moved-to-the-leaver(skipped)")
+			cl.Close()
+			e.close()
+			continue
+		}
+		if os.Getenv("VH_DEBUG") != "" {
+			for _, x := range e.be.Snapshot() {
+				fmt.Fprintf(os.Stderr, "DEBUG born: %s %s conn=%d v=%d\n", x.Kind, x.Host, x.ConnID, x.Version)
+			}
+			fmt.Fprintf(os.Stderr, "DEBUG born: leaver=%d control=%d\n", leaver, e.controlHost())
+		}
+		e.be.ResetLog()
+		old := e.cl
+		e.cl, e.ver = cl, primitive.ProtocolVersion3
+		var steps, outs []hv.V
+		got := e.settle(stay, 4*time.Second)
+		steps = append(steps, hv.L(intsV(stay), intsV(all)))
+		outs = append(outs, intsV(got))
+		// the host comes back (and starts up quickly again)
+		e.be.SetSlowStartupHost(leaver, 0)
+		e.be.SetTopology(all...)
+		e.be.DropRegistered()
+		e.waitControl(5 * time.Second)
+		got = e.settle(all, 4*time.Second)
+		if os.Getenv("VH_DEBUG") != "" {
+			fmt.Fprintf(os.Stderr, "DEBUG born: after return: routing %v control=%d\n", got, e.controlHost())
+		}
+		steps = append(steps, hv.L(intsV(all), intsV(all)))
+		outs = append(outs, intsV(got))
+		ctx.Emit(hv.L(hv.I(1), intsV(all), hv.L(steps...)), hv.L(outs...), "tables:session-born-while-a-host-leaves-and-the-host-returns")
+		ctx.Count("tables:session-born-during-removal")
+		old.Close()
+		e.close()
+	}
 }
 
 // ---- (2) failover with several hosts down at once, (3) outage samples ----
@@ -633,6 +720,7 @@ func genC16(ctx *Ctx) {
 	par(2, func(c *Ctx) { c16EventDriven(c, 1) })
 	par(5, func(c *Ctx) { c16EventDriven(c, 2) })
 	par(6, c16HeartbeatReplaced)
+	par(7, c16SessionBornDuringRemoval)
 	par(3, c16Readiness)
 	par(4, c16Heartbeat)
 	c16Policy(ctx)
